@@ -243,7 +243,8 @@ func expectedCost(f *ast.Field, inIntrospection bool, coerced map[string]interfa
 		return costExpr{Src: "t"}
 	}
 	if inIntrospection || name == "__schema" || name == "__type" {
-		return costExpr{Src: "d"}
+		// every introspection field declares FieldResolverCost(0) (schema/introspection/introspection.go)
+		return costExpr{Src: "c"}
 	}
 	switch name {
 	case "n", "i", "l":
@@ -268,7 +269,15 @@ func expectedCost(f *ast.Field, inIntrospection bool, coerced map[string]interfa
 		return costExpr{Src: "d"}
 	case "z":
 		return costExpr{Src: "c"}
-	case "k":
+	case "cursor", "pageInfo", "hasNextPage", "hasPreviousPage", "startCursor", "endCursor":
+		return costExpr{Src: "c"} // connection plumbing: FieldResolverCost(0) (pagination.go)
+	case "node":
+		return costExpr{Src: "c", R: 1} // the edge field the harness's connection declares with FieldResolverCost(1)
+	case "edges":
+		return costExpr{Src: "c", MCtx: true} // pagination.go:434-442
+	case "totalCount":
+		return costExpr{Src: "d"}
+	case "k", "things": // things: apifu.Connection with defaultConnectionCost (pagination.go:226-235)
 		e := costExpr{Src: "c", R: 1, Set: true}
 		e.C, _ = resolveArg(f, "first", coerced)
 		if last, ok := resolveArg(f, "last", coerced); ok {
